@@ -163,7 +163,7 @@ pub fn run(cfg: &Cfg) {
         let mut entries: Vec<Entry> = vec![];
         for _ in 0..r.below(6) {
             let k = *r.pick(&cand);
-            let e = match r.below(7) {
+            let e = match r.below(8) {
                 0 | 1 | 2 => Entry { label: keyid_hex(k.public()), sig: valid_sig(&meta, k), valid_under_label: true, class: "valid" },
                 3 => {
                     let mut s = valid_sig(&meta, k);
@@ -184,7 +184,31 @@ pub fn run(cfg: &Cfg) {
                     Entry { label: keyid_hex(k.public()), sig: valid_sig(&other_meta, k), valid_under_label: same, class: "other-content" }
                 }
                 6 if r.chance(1, 2) => Entry { label: hex(&r.bytes(32)), sig: valid_sig(&meta, k), valid_under_label: false, class: "relabelled" },
-                _ => Entry { label: hex(&r.bytes(32)), sig: r.bytes(64), valid_under_label: false, class: "unknown-id" },
+                6 => {
+                    // the key's genuine signature over another rendering of the same content: the canonical
+                    // JSON before it is made signable, the same with `\n` unescaped, plain or pretty serde_json
+                    // text, the signable text plus a line feed. Only the signable text itself is what
+                    // the content's signatures are made over.
+                    let j = serde_json::to_value(&meta).unwrap();
+                    let reference = crate::olpc::olpc(&j).unwrap_or_default();
+                    let canonical = meta.to_bytes().unwrap_or_default();
+                    let rendering: Vec<u8> = match r.below(5) {
+                        0 => canonical.clone(),
+                        1 => String::from_utf8_lossy(&canonical).replace("\\n", "\n").into_bytes(),
+                        2 => serde_json::to_vec(&meta).unwrap(),
+                        3 => serde_json::to_vec_pretty(&meta).unwrap(),
+                        _ => {
+                            let mut t = reference.clone();
+                            t.push(b'\n');
+                            t
+                        }
+                    };
+                    let same = rendering == reference;
+                    let sig = k.key.sign(&rendering).map(|s| s.value().as_bytes().to_vec()).unwrap_or_default();
+                    Entry { label: keyid_hex(k.public()), sig, valid_under_label: same, class: if same { "same-rendering" } else { "other-rendering" } }
+                }
+                7 => Entry { label: hex(&r.bytes(32)), sig: r.bytes(64), valid_under_label: false, class: "unknown-id" },
+                _ => Entry { label: keyid_hex(k.public()), sig: valid_sig(&meta, k), valid_under_label: true, class: "valid" },
             };
             sink.stat(&format!("entry/{}", e.class));
             entries.push(e);
